@@ -57,4 +57,34 @@ def rule_csv_fault_conversion(ctx):
     ctx.res.rule_instances["O6.3b"] = ctx.res.rule_instances.get("O10.csv-error", 0)
 
 
-RULES = [rule_modes, rule_copies, rule_raw_reader_escapes, rule_csv_fault_conversion]
+def rule_strict_csv_reader(ctx):
+    """O6.3c: malformed quoting can only be reported if the csv reader is strict - for every delimited configuration."""
+    from ..absint import AbsRaise, exc_name
+    from ..tablekit import decide
+    from .c11 import ESCAPE_VALUES, QUOTE_VALUES
+    from .c12 import _run_reader_writer
+
+    ctx.res.minimum("O6.3c", 1)
+
+    def cell(ch):
+        attributes = {
+            "_item_delimiter": ch.choose("item", [",", ";"]),
+            "_quote_character": ch.choose("quote", QUOTE_VALUES),
+            "_escape_character": ch.choose("escape", ESCAPE_VALUES),
+            "_quoting": ch.choose("quoting", [0, 1]),
+            "_skip_initial_space": ch.choose("skip", [False, True]),
+            "_line_delimiter": "any",
+        }
+        key = " ".join("%s=%r" % (k[1:], v) for k, v in sorted(attributes.items()))
+        try:
+            seen, _ = _run_reader_writer(ctx.model, ch, attributes)
+        except AbsRaise as raised:
+            return (key, "raise " + exc_name(raised.value), "strict reader")
+        keywords = dict(seen["reader"][1]) if "reader" in seen else {}
+        return (key, "strict reader" if keywords.get("strict") is True else "csv.reader(strict=%r): an unterminated quote swallows the rest of the data" % (keywords.get("strict"),),
+                "strict reader")
+
+    decide(ctx, "O6.3c", "csv.reader is strict", "cutplace.rowio._as_delimited_keywords", cell, min_cells=20)
+
+
+RULES = [rule_modes, rule_copies, rule_raw_reader_escapes, rule_csv_fault_conversion, rule_strict_csv_reader]
